@@ -1,5 +1,125 @@
 ------------------------------- MODULE DMHL -------------------------------
+(* C02: Data Matrix high-level encodation judged through the reference DECODER of ISO/IEC 16022 clause 5.2        *)
+(* (ASCII, C40, Text, ANSI X12, EDIFACT, Base 256 with 255-state un-randomising, upper shift, macro 05/06,      *)
+(* pad / 253-state randomised padding).  Whatever encodation the library chooses, its codewords must decode -    *)
+(* by this automaton - to exactly the text; the symbol must be the smallest admissible one for the codewords     *)
+(* used before padding; a refusal is legitimate only if the text is not Latin-1 or not even its plain ASCII      *)
+(* encodation fits the largest admissible symbol.  Texts are sequences of code points.                           *)
 EXTENDS DMPlacement
-HLCheck(e) == <<1>>
+IsDigit(c) == c >= 48 /\ c <= 57
+
+(* ---- reference decoder: state [i |-> next codeword index (1-based), out |-> code points, err, pad |-> index of the first pad or 0] *)
+C40Basic(v, text) == IF v = 3 THEN 32 ELSE IF v <= 13 THEN v - 4 + 48 ELSE IF text THEN v - 14 + 97 ELSE v - 14 + 65
+Shift2 == <<33,34,35,36,37,38,39,40,41,42,43,44,45,46,47,58,59,60,61,62,63,64,91,92,93,94,95>>
+Shift3Text == <<96,65,66,67,68,69,70,71,72,73,74,75,76,77,78,79,80,81,82,83,84,85,86,87,88,89,90,123,124,125,126,127>>
+RECURSIVE DecC40(_,_,_,_,_,_)
+DecC40(c, i, out, text, shift, upper) ==
+  IF i > Len(c) THEN [i |-> i, out |-> out, err |-> FALSE]
+  ELSE IF i = Len(c) THEN [i |-> i, out |-> out, err |-> FALSE]          \* a single codeword left in the symbol is ASCII encoded
+  ELSE IF c[i] = 254 THEN [i |-> i + 1, out |-> out, err |-> FALSE]      \* unlatch
+  ELSE LET full == c[i]*256 + c[i+1] - 1
+           vs == << full \div 1600, (full % 1600) \div 40, full % 40 >>
+           RECURSIVE three(_,_,_,_)
+           three(k, o, sh, up) ==
+             IF k > 3 THEN [o |-> o, sh |-> sh, up |-> up, err |-> FALSE]
+             ELSE LET v == vs[k] IN
+               IF sh = 0 THEN
+                  IF v < 3 THEN three(k+1, o, v+1, up)
+                  ELSE IF v < 40 THEN three(k+1, Append(o, C40Basic(v, text) + (IF up THEN 128 ELSE 0)), 0, FALSE)
+                  ELSE [o |-> o, sh |-> sh, up |-> up, err |-> TRUE]
+               ELSE IF sh = 1 THEN three(k+1, Append(o, v + (IF up THEN 128 ELSE 0)), 0, FALSE)
+               ELSE IF sh = 2 THEN
+                  IF v < 27 THEN three(k+1, Append(o, Shift2[v+1] + (IF up THEN 128 ELSE 0)), 0, FALSE)
+                  ELSE IF v = 27 THEN three(k+1, Append(o, 29), 0, up)                                  \* FNC1
+                  ELSE IF v = 30 THEN three(k+1, o, 0, TRUE)                                             \* upper shift
+                  ELSE [o |-> o, sh |-> sh, up |-> up, err |-> TRUE]
+               ELSE IF text THEN
+                  IF v < 32 THEN three(k+1, Append(o, Shift3Text[v+1] + (IF up THEN 128 ELSE 0)), 0, FALSE)
+                  ELSE [o |-> o, sh |-> sh, up |-> up, err |-> TRUE]
+               ELSE IF v < 32 THEN three(k+1, Append(o, v + (IF up THEN 224 ELSE 96)), 0, FALSE)
+               ELSE [o |-> o, sh |-> sh, up |-> up, err |-> TRUE]
+           r == three(1, out, shift, upper)
+       IN IF r.err THEN [i |-> i, out |-> r.o, err |-> TRUE] ELSE DecC40(c, i+2, r.o, text, r.sh, r.up)
+RECURSIVE DecX12(_,_,_)
+DecX12(c, i, out) ==
+  IF i >= Len(c) THEN [i |-> i, out |-> out, err |-> FALSE]
+  ELSE IF c[i] = 254 THEN [i |-> i + 1, out |-> out, err |-> FALSE]
+  ELSE LET full == c[i]*256 + c[i+1] - 1
+           vs == << full \div 1600, (full % 1600) \div 40, full % 40 >>
+           ch(v) == CASE v = 0 -> 13 [] v = 1 -> 42 [] v = 2 -> 62 [] v = 3 -> 32 [] v >= 4 /\ v < 14 -> v + 44 [] v >= 14 /\ v < 40 -> v + 51 [] OTHER -> -1
+       IN IF \E k \in 1..3 : ch(vs[k]) < 0 THEN [i |-> i, out |-> out, err |-> TRUE]
+          ELSE DecX12(c, i+2, out \o <<ch(vs[1]), ch(vs[2]), ch(vs[3])>>)
+BitAt(c, b) == (c[(b \div 8) + 1] \div 2^(7 - (b % 8))) % 2              \* b = 0-based bit position in the codeword stream
+Bits6(c, b) == BitAt(c,b)*32 + BitAt(c,b+1)*16 + BitAt(c,b+2)*8 + BitAt(c,b+3)*4 + BitAt(c,b+4)*2 + BitAt(c,b+5)
+RECURSIVE DecEdf(_,_,_)
+DecEdf(c, b, out) ==
+  LET avail == 8*Len(c) - b IN
+  IF avail <= 16 THEN [i |-> (b \div 8) + 1, out |-> out, err |-> FALSE]   \* one or two codewords left: back to ASCII without unlatch
+  ELSE LET RECURSIVE four(_,_,_)
+           four(k, bb, o) ==
+             IF k > 4 THEN [b |-> bb, o |-> o, stop |-> FALSE]
+             ELSE LET v == Bits6(c, bb) IN
+                  IF v = 31 THEN [b |-> ((bb + 6 + 7) \div 8) * 8, o |-> o, stop |-> TRUE]             \* unlatch; rest of the codeword is ignored
+                  ELSE four(k+1, bb + 6, Append(o, IF v < 32 THEN v + 64 ELSE v))
+           r == four(1, b, out)
+       IN IF r.stop THEN [i |-> (r.b \div 8) + 1, out |-> r.o, err |-> FALSE] ELSE DecEdf(c, r.b, r.o)
+DecB256(c, i, out) ==
+  IF i > Len(c) THEN [i |-> i, out |-> out, err |-> TRUE]
+  ELSE LET d1 == UnRand255(c[i], i)
+           two == d1 >= 250
+       IN IF two /\ i + 1 > Len(c) THEN [i |-> i, out |-> out, err |-> TRUE]
+          ELSE LET cnt == IF d1 = 0 THEN Len(c) - i                        \* length 0: runs to the end of the symbol
+                          ELSE IF d1 < 250 THEN d1 ELSE 250*(d1 - 249) + UnRand255(c[i+1], i+1)
+                   st == IF two THEN i + 2 ELSE i + 1
+               IN IF st + cnt - 1 > Len(c) THEN [i |-> i, out |-> out, err |-> TRUE]
+                  ELSE [i |-> st + cnt, out |-> out \o [k \in 1..cnt |-> UnRand255(c[st + k - 1], st + k - 1)], err |-> FALSE]
+MacroHead(n) == <<91, 41, 62, 30, 48, 48 + n, 29>>       \* "[)>" RS "05"/"06" GS
+MacroTrail == <<30, 4>>                                   \* RS EOT
+RECURSIVE DecAscii(_,_,_,_,_)
+DecAscii(c, i, out, upper, trail) ==      \* returns [text, err, pad]
+  IF i > Len(c) THEN [text |-> out \o trail, err |-> FALSE, pad |-> 0]
+  ELSE LET b == c[i] IN
+    IF b = 0 THEN [text |-> out, err |-> TRUE, pad |-> 0]
+    ELSE IF b <= 128 THEN DecAscii(c, i+1, Append(out, b - 1 + (IF upper THEN 128 ELSE 0)), FALSE, trail)
+    ELSE IF b = 129 THEN [text |-> out \o trail, err |-> upper, pad |-> i]                    \* pad: end of data
+    ELSE IF b <= 229 THEN DecAscii(c, i+1, out \o <<48 + ((b - 130) \div 10), 48 + ((b - 130) % 10)>>, upper, trail)
+    ELSE IF b = 230 THEN LET r == DecC40(c, i+1, out, FALSE, 0, FALSE) IN IF r.err THEN [text |-> r.out, err |-> TRUE, pad |-> 0] ELSE DecAscii(c, r.i, r.out, FALSE, trail)
+    ELSE IF b = 239 THEN LET r == DecC40(c, i+1, out, TRUE, 0, FALSE) IN IF r.err THEN [text |-> r.out, err |-> TRUE, pad |-> 0] ELSE DecAscii(c, r.i, r.out, FALSE, trail)
+    ELSE IF b = 238 THEN LET r == DecX12(c, i+1, out) IN IF r.err THEN [text |-> r.out, err |-> TRUE, pad |-> 0] ELSE DecAscii(c, r.i, r.out, FALSE, trail)
+    ELSE IF b = 240 THEN LET r == DecEdf(c, 8*i, out) IN DecAscii(c, r.i, r.out, FALSE, trail)
+    ELSE IF b = 231 THEN LET r == DecB256(c, i+1, out) IN IF r.err THEN [text |-> r.out, err |-> TRUE, pad |-> 0] ELSE DecAscii(c, r.i, r.out, FALSE, trail)
+    ELSE IF b = 235 THEN DecAscii(c, i+1, out, TRUE, trail)
+    ELSE IF b = 236 THEN DecAscii(c, i+1, out \o MacroHead(5), upper, MacroTrail)
+    ELSE IF b = 237 THEN DecAscii(c, i+1, out \o MacroHead(6), upper, MacroTrail)
+    ELSE IF b = 254 /\ i = Len(c) THEN [text |-> out \o trail, err |-> FALSE, pad |-> 0]   \* an unlatch as the very last codeword (encoders that fill the last position this way) is tolerated
+    ELSE [text |-> out, err |-> TRUE, pad |-> 0]            \* FNC1, structured append, reader programming, ECI, 242..255: never produced for plain text
+Decode(c) == DecAscii(c, 1, <<>>, FALSE, <<>>)
+\* after the first pad codeword only 253-state randomised pads may follow
+PadsOK(c, p) == p = 0 \/ \A k \in p+1..Len(c) : c[k] = Pad253(k)
+
+(* ---- a sufficient condition for "fits": the plain ASCII encodation (digit pairs, upper shift for 128..255) *)
+RECURSIVE AsciiLen(_,_)
+AsciiLen(t, i) == IF i > Len(t) THEN 0
+                  ELSE IF i < Len(t) /\ IsDigit(t[i]) /\ IsDigit(t[i+1]) THEN 1 + AsciiLen(t, i + 2)
+                  ELSE IF t[i] >= 128 THEN 2 + AsciiLen(t, i + 1) ELSE 1 + AsciiLen(t, i + 1)
+MaxCap(shape, mn, mx) == LET ok == {i \in 1..NSizes : Admissible(i, shape, mn, mx)} IN
+                         IF ok = {} THEN 0 ELSE NData(T7[CHOOSE i \in ok : \A j \in ok : NData(T7[i]) >= NData(T7[j])])
+Latin1(t) == \A i \in 1..Len(t) : t[i] \in 0..255
+B(x) == IF x THEN 1 ELSE 0
+
+(* ---- judgement of one recorded EncodeHighLevel / decode / write / read event *)
+HLCheck(e) ==
+  LET t == e.text
+      okRun == e.panic = 0 /\ e.hang = 0
+      mustFit == Len(t) > 0 /\ Latin1(t) /\ AsciiLen(t, 1) <= MaxCap(e.shape, e.mn, e.mx)
+      okRefusal == IF e.cwerr = 1 THEN ~mustFit ELSE Latin1(t) /\ Len(t) > 0
+      d == IF e.cwerr = 0 /\ (\A k \in 1..Len(e.cw) : e.cw[k] \in 0..255) THEN Decode(e.cw) ELSE [text |-> <<>>, err |-> TRUE, pad |-> 0]
+      used == IF d.pad = 0 THEN Len(e.cw) ELSE d.pad - 1
+      i == IF e.cwerr = 0 THEN Lookup(used, e.shape, e.mn, e.mx) ELSE 0
+      okCw == e.cwerr = 1 \/ (~d.err /\ d.text = t /\ PadsOK(e.cw, d.pad) /\ i # 0 /\ Len(e.cw) = NData(T7[i]))
+      okDec == e.cwerr = 1 \/ (e.derr = "" /\ e.dtext = e.utf8)
+      okImg == Len(e.img) # 2 \/ (IF e.cwerr = 1 THEN e.werr = 1
+                                   ELSE e.werr = 0 /\ e.rerr = "" /\ e.rtext = e.utf8 /\ e.rfmt = 1)
+  IN <<B(okRun), B(~okRun \/ okRefusal), B(~okRun \/ okCw), B(~okRun \/ okDec), B(~okRun \/ okImg)>>
 LACheck(e) == <<1>>
 =============================================================================
